@@ -146,6 +146,13 @@ class Run:
         self.exhaustive = False
         self.assumptions: list[str] = []
         self.theorems: list[str] = []
+        # anchored source files that differ from the tree the checks were validated on ⇒ a deeper random search (never a verdict)
+        try:
+            import anchors
+            self.anchored_changed: list[str] = anchors.changed(prop)
+        except Exception:  # noqa: BLE001
+            self.anchored_changed = []
+        self.boost = 3 if self.anchored_changed else 1
 
     def count(self, cls: str, n: int = 1) -> None:
         self.hist[cls] = self.hist.get(cls, 0) + n
@@ -200,6 +207,7 @@ class Run:
                 "model_vs_impl_disagreements": len(self.disagreements),
                 "spec_failures_on_impl": len(self.spec_failures),
                 "known_findings_reproduced": self.known,
+                "anchored_files_changed": self.anchored_changed, "search_scale": self.boost,
                 "extracted": audit.get("facts"),
                 **self.extra,
             },
